@@ -590,6 +590,24 @@ theorem povm_projIneq_eq_psdProjBlocks (B : Vector (Mat ℂ d d) (d * d)) (hB : 
   have := projIneqCore_eq_psdProj B hB hH (unflatten v)[(⟨i, hi⟩ : Fin m)] _ _ (hU ⟨i, hi⟩) (hA ⟨i, hi⟩) _ hk
   simpa using this
 
+/-- C05/H1 Gate: `IsProj` for the CP projection of a gate (Choi basis `B_α ⊗ conj B_β`; orthonormality, Hermiticity and the count
+`(d²)²` are derived from those of the operator basis). -/
+theorem isProj_psd_choi (B : Vector (Mat ℂ d d) (d * d)) (hB : OrthoN (basisM B)) (hH : HermB B) :
+    IsProj (fun v : Vec ℝ ((d * d) * (d * d)) => (matOfVec (kronBasis B) v).toM.PosSemidef)
+      (psdProj (kronBasis B) (orthoN_kronBasis B hB) (hermB_kron B hH)) :=
+  isProj_psd (kronBasis B) (orthoN_kronBasis B hB) (hermB_kron B hH)
+
+/-- C05/H1 MProcess: `IsProj` for the outcome-wise CP projection of an m-process on the flat vector. -/
+theorem isProj_psd_blocks_choi (B : Vector (Mat ℂ d d) (d * d)) (hB : OrthoN (basisM B)) (hH : HermB B) (m : Nat) :
+    IsProj (fun v : Vec ℝ (m * ((d * d) * (d * d))) =>
+        ∀ k : Fin m, (matOfVec (kronBasis B) (unflatten v)[k]).toM.PosSemidef)
+      (psdProjBlocks (kronBasis B) (orthoN_kronBasis B hB) (hermB_kron B hH) m) :=
+  isProj_psd_blocks (kronBasis B) (orthoN_kronBasis B hB) (hermB_kron B hH) m
+
+-- non-vacuity on the real qubit basis
+example (m : Nat) := isProj_psd_blocks_choi pauliB pauli_orthoN pauli_hermB m
+example := isProj_psd_choi pauliB pauli_orthoN pauli_hermB
+
 end psd
 
 /-- tie to the source, loop frame: the start state `(x, p, q)` of the modelled run is the initialisation translated from the source
